@@ -354,6 +354,14 @@ class ContractMixin:
         # in postconditions parameter names denote the values passed in (the heap is the exit heap)
         s.frames = [dict(self._entry_env)]
         extra = {"result": payload}
+        if "result" in c.sorts and c.sorts["result"].startswith("tuple:") and isinstance(payload, STuple):
+            wants = c.sorts["result"][6:].split(",")
+            if len(wants) == len(payload.items):
+                try:
+                    payload = STuple([x if x.kind == w else self.view_as(s, x, w) for x, w in zip(payload.items, wants)])
+                    extra["result"] = payload
+                except EngineError:
+                    pass
         if "result" in c.sorts:
             want = c.sorts["result"]
             if want != "any" and payload.kind != want and not (want.startswith("optref:") and (isinstance(payload, SNone) or payload.kind == want[7:])):
